@@ -123,7 +123,7 @@ def r2(ctx, R):
 
 
 @rule("C13.R3", "C13", "REACH", "deleting a space reaches everything that lives in or was built from it",
-      min_instances=10, also=("C07",))
+      min_instances=10, also=("C07", "C08"))
 def r3(ctx, R):
     """UserSpaceImpl.on_delete: clear_subs_rootitems(), del_all_itemspaces(), then
     BaseSpaceImpl.on_delete (cells: object-level invalidation + on_delete).
